@@ -1,0 +1,74 @@
+//go:build verif
+
+// Contracts for gzv (contract-based deductive verification, /verif). Comment-only file.
+package cache
+
+// ---------------------------------------------------------------------------------------------
+// C06 cache-aside node (float64 over the reals for the jitter arithmetic).
+// ---------------------------------------------------------------------------------------------
+//@ spec cOK(c cacheNode) bool = c.rds != nil && c.expiry > 0 && c.notFoundExpiry > 0 && mathx.devOf(c.unstableExpiry) == 0.05 && c.errNotFound != nil
+
+// TTLs: jitter within +/-5%, rounded up to whole seconds, never below one second (0 would mean a persistent key).
+//@ func (c cacheNode) aroundDuration
+//@   property C06
+//@   float real
+//@   requires mathx.devOf(c.unstableExpiry) == 0.05 && duration >= 0
+//@   ensures  20.0*real(result) <= 21.0*real(duration) && 20.0*(real(result) + 1.0) > 19.0*real(duration) && result >= 0
+//@   modifies nothing
+
+//@ func (c cacheNode) setCacheWithNotFound
+//@   property C06
+//@   float real
+//@   requires cOK(c) && c.notFoundExpiry >= 2
+//@   ensures  rdsWrites == old(rdsWrites) + 1 && rdsLastKey == key && rdsLastVal == "*" && rdsLastSeconds >= 1 && result == rdsWriteErr
+//@   ensures  20.0*real(rdsLastSeconds)*1000000000.0 < 21.0*real(c.notFoundExpiry) + 20.0*1000000000.0
+//@   modifies rdsWrites, rdsLastKey, rdsLastVal, rdsLastSeconds, rdsWriteErr
+
+//@ func (c cacheNode) SetCtx
+//@   property C06
+//@   float real
+//@   requires cOK(c) && c.expiry >= 2
+//@   ensures  implies(rdsWrites != old(rdsWrites), rdsWrites == old(rdsWrites) + 1 && rdsLastKey == key && rdsLastSeconds >= 1)
+//@   modifies heap, rdsWrites, rdsLastKey, rdsLastVal, rdsLastSeconds, rdsWriteErr
+
+// reading the store: error, miss, placeholder, hit
+//@ func (c cacheNode) doGetCache
+//@   property C06
+//@   requires cOK(c)
+//@   ensures  implies(rdsGetErr != nil, result == rdsGetErr)
+//@   ensures  implies(rdsGetErr == nil && len(rdsGetVal) == 0, result == c.errNotFound)
+//@   ensures  implies(rdsGetErr == nil && len(rdsGetVal) != 0 && rdsGetVal == "*", result == errPlaceholder)
+//@   ensures  implies(rdsGetErr == nil && len(rdsGetVal) != 0 && rdsGetVal != "*", result == nil || result == c.errNotFound)
+//@   ensures  rdsWrites == old(rdsWrites)
+//@   modifies heap, rdsDels
+
+//@ func (c cacheNode) processCache
+//@   property C06
+//@   ensures  result == nil || result == c.errNotFound
+//@   ensures  rdsWrites == old(rdsWrites)
+//@   modifies heap, rdsDels
+
+// the function run under the single-flight barrier
+//@ func (c cacheNode) doTake closure 0
+//@   property C06
+//@   float real
+//@   flag callbacks_noheap
+//@   results out, err
+//@   requires cOK(c) && c.notFoundExpiry >= 2 && query != cacheVal
+//@   requires errPlaceholder != c.errNotFound
+//@   ensures  implies(rdsGetErr != nil && !errors.Is(rdsGetErr, errPlaceholder) && !errors.Is(rdsGetErr, c.errNotFound), err == rdsGetErr && calls(query) == old(calls(query)) && calls(cacheVal) == old(calls(cacheVal)) && rdsWrites == old(rdsWrites))
+//@   ensures  implies(rdsGetErr == nil && len(rdsGetVal) != 0 && rdsGetVal == "*" && errors.Is(errPlaceholder, errPlaceholder), err == c.errNotFound && calls(query) == old(calls(query)) && rdsWrites == old(rdsWrites))
+//@   ensures  calls(query) <= old(calls(query)) + 1 && calls(cacheVal) <= old(calls(cacheVal)) + 1
+//@   ensures  implies(calls(query) == old(calls(query)) + 1 && ret(query) != nil && !errors.Is(ret(query), c.errNotFound), err == ret(query) && calls(cacheVal) == old(calls(cacheVal)) && rdsWrites == old(rdsWrites))
+//@   ensures  implies(calls(query) == old(calls(query)) + 1 && errors.Is(ret(query), c.errNotFound), err == c.errNotFound && calls(cacheVal) == old(calls(cacheVal)) && rdsWrites == old(rdsWrites) + 1 && rdsLastVal == "*" && rdsLastKey == key && rdsLastSeconds >= 1)
+//@   ensures  implies(calls(query) == old(calls(query)) + 1 && ret(query) == nil, calls(cacheVal) == old(calls(cacheVal)) + 1)
+//@   ensures  implies(calls(cacheVal) == old(calls(cacheVal)) + 1, calls(query) == old(calls(query)) + 1 && ret(query) == nil)
+
+// public entry with a caller-chosen expiry: the write needs seconds >= 1 (known finding F8: expire <= 0 writes a persistent key)
+//@ func (c cacheNode) SetWithExpireCtx
+//@   property C06
+//@   float real
+//@   requires c.rds != nil
+//@   ensures  implies(rdsWrites != old(rdsWrites), rdsWrites == old(rdsWrites) + 1 && rdsLastKey == key && rdsLastSeconds >= 1)
+//@   ensures  implies(rdsWrites != old(rdsWrites) && expire > 0, real(rdsLastSeconds)*1000000000.0 >= real(expire) && real(rdsLastSeconds)*1000000000.0 < real(expire) + 1000000000.0)
+//@   modifies heap, rdsWrites, rdsLastKey, rdsLastVal, rdsLastSeconds, rdsWriteErr
